@@ -25,7 +25,7 @@ const (
 
 var c18Ctx3 = []string{"Add", "Sub", "Mul", "Quo", "QuoInteger", "Rem", "Pow", "Cmp"}
 var c18Ctx2 = []string{"Abs", "Neg", "Round", "Sqrt", "Cbrt", "Exp", "Ln", "Log10", "RoundToIntegralValue", "RoundToIntegralExact", "Ceil", "Floor", "Reduce"}
-var c18Read1 = []string{"Sign", "String", "Text", "Sprintf", "Int64", "Float64", "Decompose", "MarshalText"}
+var c18Read1 = []string{"Sign", "Size", "String", "Text", "Sprintf", "Int64", "Float64", "Decompose", "MarshalText"}
 var c18Read2 = []string{"DCmp", "CmpTotal"}
 var c18Dec2 = []string{"DSet", "DNeg", "DAbs", "DReduce", "Compose"}
 var c18DecSet = []string{"SetInt64", "SetFinite", "SetFloat64", "DSetString", "UnmarshalText", "Scan"}
@@ -517,7 +517,10 @@ func planSig(p *plan.Plan) string {
 	var h uint64
 	for _, t := range p.Tasks {
 		for _, s := range t.Steps {
-			h = plan.Mix(h ^ hashString(s.Op+s.X+s.Y+s.D))
+			h = plan.Mix(h ^ hashString(s.Op+s.X+s.Y+s.D+s.I+s.F+s.Poison+s.S) ^ uint64(s.N)<<7 ^ uint64(s.Ctx)<<3)
+			if s.Traps != nil {
+				h = plan.Mix(h ^ uint64(*s.Traps))
+			}
 		}
 	}
 	if p.Schedule != nil {
